@@ -160,6 +160,7 @@ Fixpoint grid (axes : list (list T)) : list (list T) :=
   end.
 End Model.
 
+Arguments KSys : clear implicits. Arguments KTgt : clear implicits.
 Arguments mkKSys {T}. Arguments mkKTgt {T}.
 Arguments ks_n {T}. Arguments ks_unb {T}. Arguments ks_exact {T}. Arguments ks_sill {T}.
 Arguments ks_C {T}. Arguments ks_err {T}. Arguments ks_Fint {T}. Arguments ks_Fext {T}.
